@@ -87,20 +87,20 @@ func IsKnown(v *Violation) bool {
 // Stats collects what a run covered. One per test function (property / sub-check).
 type Stats struct {
 	mu            sync.Mutex
-	Prop          string           `json:"prop"`
-	Part          string           `json:"part"`
-	Rule          string           `json:"rule"`
-	Evaluations   int              `json:"evaluations"`
-	Nontrivial    map[string]bool  `json:"-"`
-	NontrivialFPs []string         `json:"nontrivial_fps"`
-	Labels        map[string]int   `json:"labels"`
-	Samples       []any            `json:"samples"`
-	ExcludedKnown map[string]int   `json:"excluded_known"`
+	Prop          string            `json:"prop"`
+	Part          string            `json:"part"`
+	Rule          string            `json:"rule"`
+	Evaluations   int               `json:"evaluations"`
+	Nontrivial    map[string]bool   `json:"-"`
+	NontrivialFPs []string          `json:"nontrivial_fps"`
+	Labels        map[string]int    `json:"labels"`
+	Samples       []any             `json:"samples"`
+	ExcludedKnown map[string]int    `json:"excluded_known"`
 	KnownWhat     map[string]string `json:"known_what"`
-	Counters      map[string]int64 `json:"counters"`
-	Exhaustive    bool             `json:"exhaustive"`
-	SpaceSize     int64            `json:"space_size,omitempty"`
-	Violations    []ViolationRec   `json:"violations"`
+	Counters      map[string]int64  `json:"counters"`
+	Exhaustive    bool              `json:"exhaustive"`
+	SpaceSize     int64             `json:"space_size,omitempty"`
+	Violations    []ViolationRec    `json:"violations"`
 }
 
 // ViolationRec is a reported (unknown) violation with its replay file.
